@@ -275,6 +275,22 @@ def C12(s, known):
     if s.inproc_ok:
         mi = s.drive("iter", binary=s.vinproc)
         s.validate(mi, "IterTrace", known=known, shard=max(20, len_records(mi) // 8 + 1), drift=True)
+        # TLC-generated interleavings replayed on the real iterator (producer and consumer stepped through the verif gate hook)
+        quick = s.tier == "quick"
+        parts = []
+        for n, stop, cfg, num in ((40, 17, "IterReplay.cfg", 12 if quick else 60), (40, 0, "IterReplay.cfg", 8 if quick else 40), (7, 7, "IterReplay.cfg", 8 if quick else 40),
+                                  (130, 0, "IterReplayFill.cfg", 4 if quick else 20), (130, 120, "IterReplayFill.cfg", 4 if quick else 20), (104, 101, "IterReplayFill.cfg", 4 if quick else 20)):
+            d = s.simulate("IterReplay", cfg, num=num, depth=700, constants={"N": n, "StopAt": stop})
+            parts.append("%s:%d:%d" % (d, n, stop))
+        mg = s.drive("gate", binary=s.vinproc, args=["-aux", ";".join(parts)])
+        if mg["traces"] == 0:
+            raise __import__("vcheck").Undecided("no behaviour was replayed on the real iterator")
+        s.validate(mg, "IterReplayTrace", cfg="IterReplayTraceWhat.cfg", known=known, shard=1000)
+        s.validate(mg, "IterReplayTrace", known=known, shard=1000, drift=True)
+
+        def corrupt(rec):
+            rec["realGot"] = rec["realGot"] + 1
+        s.binding_selftest(mg, "IterReplayTrace", corrupt, cfg="IterReplayTraceWhat.cfg", expect="Outcome")
     m = s.drive("c12")
     s.validate(m, "C12Trace", known=known, shard=1000)
     return dict(level="model_checking",
